@@ -399,14 +399,17 @@ class Parser(IdlVisitor):
 
         targets: list[str] = [target.getText() for target in ctx.TARGET()]
         if "+any" in targets:
-            includes = self.target_keys
+            includes = list(self.target_keys)
         for target in targets:
+            if target == "+any":
+                continue
             if target.startswith('+'):
-                includes.append(target[1:])
+                if target[1:] not in includes:
+                    includes.append(target[1:])
             else:
                 excludes.append(target[1:])
         if (not includes) and excludes:
-            includes = self.target_keys
+            includes = list(self.target_keys)
 
         targets = [include for include in includes if include not in excludes]
         for target in targets:
